@@ -24,16 +24,16 @@
 /* Frames. Contracts name the groups of ghost fields a function may touch, so that
    a replaced call leaves everything else alone and an enforced body is checked
    not to reach further. */
-#define G_FD g.open, g.lib, g.cloexec, g.nonblock, g.rd, g.wr, g.obj, g.next_pipe
-#define G_ERR g.err, g.faults, g.first_errno, g.last_fault, g.os_calls
-#define G_RD g.rd_calls, g.rd_fd, g.rd_buf, g.rd_n, g.rd_ret, g.rd_errno, g.may_block
-#define G_WR g.wr_calls, g.wr_fd, g.wr_buf, g.wr_n, g.wr_ret, g.wr_errno, g.may_block, g.in_fd, g.stream_pos
-#define G_POLL g.now, g.may_block, g.poll_calls, g.poll_timeout, g.poll_ret, g.poll_at, g.poll_fds, g.poll_ready, g.poll_nfds, g.poll_fdv, g.poll_evv, g.poll_rev, g.plan_pos
+#define G_FD g.fds
+#define G_ERR g.e
+#define G_RD g.rl, g.may_block
+#define G_WR g.wl, g.may_block, g.in_fd, g.stream_pos
+#define G_POLL g.pl, g.now, g.may_block, g.plan_pos
 /* what every contract that may fail a call promises about the error ghost */
-#define G_ERR_SANE (g.err >= 0 && g.err < 134 && g.first_errno >= 0 && g.first_errno < 134 && g.last_fault >= 0 && g.last_fault < 134 && g.faults >= OLD(g.faults) && g.faults <= 1000 && g.os_calls >= OLD(g.os_calls) && IMPLIES(OLD(g.faults) > 0, g.first_errno == OLD(g.first_errno)) && IMPLIES(g.faults == OLD(g.faults), g.first_errno == OLD(g.first_errno)))
+#define G_ERR_SANE (g.e.err >= 0 && g.e.err < 134 && g.e.first_errno >= 0 && g.e.first_errno < 134 && g.e.last_fault >= 0 && g.e.last_fault < 134 && g.e.faults >= OLD(g.e.faults) && g.e.faults <= 1000 && g.e.os_calls >= OLD(g.e.os_calls) && IMPLIES(OLD(g.e.faults) > 0, g.e.first_errno == OLD(g.e.first_errno)) && IMPLIES(g.e.faults == OLD(g.e.faults), g.e.first_errno == OLD(g.e.first_errno)))
 /* descriptors that were open keep the object behind them (index masked so that
    the snapshot taken at entry is in bounds) */
-#define OBJ_KEPT(fd) (!FD_OK(fd) || (OLD(g.open) & BIT(fd)) == 0 || g.obj[(fd) & 31] == OLD(g.obj[(fd) & 31]))
+#define OBJ_KEPT(fd) (!FD_OK(fd) || (OLD(g.fds.open) & BIT(fd)) == 0 || g.fds.obj[(fd) & 31] == OLD(g.fds.obj[(fd) & 31]))
 
 /* ------------------------------- options.c ------------------------------- */
 
@@ -70,7 +70,7 @@ int parse_options(reproc_options *options, const char *const *argv)
    time pass (non-decreasing) and has no other effect */
 CONTRACT(now)
 int64_t now(void)
-  ASSIGNS(g.now, g.os_calls)
+  ASSIGNS(g.now, g.e.os_calls)
   ENS("C08/now.is_os_clock_in_ms", RV == g.now)
   ENS("C08/now.monotone", g.now >= OLD(g.now) && g.now - OLD(g.now) <= 0x7fffffffLL)
   ;
@@ -78,10 +78,10 @@ int64_t now(void)
 /* ------------------------------ handle.posix.c ---------------------------- */
 
 #define FD_FRAME_EXCEPT(m)                                                     \
-  ((g.open & ~(m)) == (OLD(g.open) & ~(m)) && (g.lib & ~(m)) == (OLD(g.lib) & ~(m)) && \
-   (g.cloexec & ~(m)) == (OLD(g.cloexec) & ~(m)) && (g.nonblock & ~(m)) == (OLD(g.nonblock) & ~(m)))
+  ((g.fds.open & ~(m)) == (OLD(g.fds.open) & ~(m)) && (g.fds.lib & ~(m)) == (OLD(g.fds.lib) & ~(m)) && \
+   (g.fds.cloexec & ~(m)) == (OLD(g.fds.cloexec) & ~(m)) && (g.fds.nonblock & ~(m)) == (OLD(g.fds.nonblock) & ~(m)))
 #define FD_LEDGER_UNCHANGED                                                    \
-  (g.open == OLD(g.open) && g.lib == OLD(g.lib))
+  (g.fds.open == OLD(g.fds.open) && g.fds.lib == OLD(g.fds.lib))
 
 CONTRACT(handle_destroy)
 int handle_destroy(int handle)
@@ -90,19 +90,19 @@ int handle_destroy(int handle)
   ASSIGNS(G_FD, G_ERR)
   ENS("C14/handle_destroy.error_ghost_sane", G_ERR_SANE)
   ENS("C05/handle_destroy.returns_invalid", RV == -1)
-  ENS("C05/handle_destroy.invalid_is_noop", IMPLIES(handle == -1, g.os_calls == OLD(g.os_calls) && FD_LEDGER_UNCHANGED))
-  ENS("C05/handle_destroy.releases_exactly_that_descriptor", g.open == (OLD(g.open) & ~MASK_OF(handle)) && g.lib == (OLD(g.lib) & ~MASK_OF(handle)))
+  ENS("C05/handle_destroy.invalid_is_noop", IMPLIES(handle == -1, g.e.os_calls == OLD(g.e.os_calls) && FD_LEDGER_UNCHANGED))
+  ENS("C05/handle_destroy.releases_exactly_that_descriptor", g.fds.open == (OLD(g.fds.open) & ~MASK_OF(handle)) && g.fds.lib == (OLD(g.fds.lib) & ~MASK_OF(handle)))
   ENS("C05/handle_destroy.others_keep_flags", FD_FRAME_EXCEPT(MASK_OF(handle)))
   ;
 
 CONTRACT(handle_cloexec)
 int handle_cloexec(int handle, bool enable)
-  ASSIGNS(g.cloexec, G_ERR)
+  ASSIGNS(g.fds.cloexec, G_ERR)
   ENS("C14/handle_cloexec.error_ghost_sane", G_ERR_SANE)
-  ENS("C11/handle_cloexec.sets_flag", IMPLIES(RV == 0, IS_OPEN(handle) && ((g.cloexec & MASK_OF(handle)) != 0) == enable))
-  ENS("C11/handle_cloexec.only_that_flag", g.open == OLD(g.open) && g.lib == OLD(g.lib) && g.nonblock == OLD(g.nonblock) && (g.cloexec & ~MASK_OF(handle)) == (OLD(g.cloexec) & ~MASK_OF(handle)))
-  ENS("C04/handle_cloexec.reports_errno", (RV == 0 || RV == -g.err) && RV <= 0)
-  ENS("C04/handle_cloexec.first_failure_reported", IMPLIES(RV < 0 && OLD(g.faults) == 0 && g.faults > 0, RV == -g.first_errno))
+  ENS("C11/handle_cloexec.sets_flag", IMPLIES(RV == 0, IS_OPEN(handle) && ((g.fds.cloexec & MASK_OF(handle)) != 0) == enable))
+  ENS("C11/handle_cloexec.only_that_flag", g.fds.open == OLD(g.fds.open) && g.fds.lib == OLD(g.fds.lib) && g.fds.nonblock == OLD(g.fds.nonblock) && (g.fds.cloexec & ~MASK_OF(handle)) == (OLD(g.fds.cloexec) & ~MASK_OF(handle)))
+  ENS("C04/handle_cloexec.reports_errno", (RV == 0 || RV == -g.e.err) && RV <= 0)
+  ENS("C04/handle_cloexec.first_failure_reported", IMPLIES(RV < 0 && OLD(g.e.faults) == 0 && g.e.faults > 0, RV == -g.e.first_errno))
   ;
 
 /* ------------------------------- pipe.posix.c ----------------------------- */
@@ -113,14 +113,14 @@ int pipe_destroy(int pipe)
   ASSIGNS(G_FD, G_ERR)
   ENS("C14/pipe_destroy.error_ghost_sane", G_ERR_SANE)
   ENS("C05/pipe_destroy.returns_invalid", RV == -1)
-  ENS("C05/pipe_destroy.invalid_is_noop", IMPLIES(pipe == -1, g.os_calls == OLD(g.os_calls) && FD_LEDGER_UNCHANGED))
-  ENS("C05/pipe_destroy.releases_exactly_that_descriptor", g.open == (OLD(g.open) & ~MASK_OF(pipe)) && g.lib == (OLD(g.lib) & ~MASK_OF(pipe)))
+  ENS("C05/pipe_destroy.invalid_is_noop", IMPLIES(pipe == -1, g.e.os_calls == OLD(g.e.os_calls) && FD_LEDGER_UNCHANGED))
+  ENS("C05/pipe_destroy.releases_exactly_that_descriptor", g.fds.open == (OLD(g.fds.open) & ~MASK_OF(pipe)) && g.fds.lib == (OLD(g.fds.lib) & ~MASK_OF(pipe)))
   ENS("C05/pipe_destroy.others_keep_flags", FD_FRAME_EXCEPT(MASK_OF(pipe)))
   ;
 
 #define PIPE_PAIR_FRESH(r, w)                                                  \
-  (FD_OK(r) && FD_OK(w) && (r) != (w) && (OLD(g.open) & (BIT(r) | BIT(w))) == 0 && \
-   g.open == (OLD(g.open) | BIT(r) | BIT(w)) && g.lib == (OLD(g.lib) | BIT(r) | BIT(w)))
+  (FD_OK(r) && FD_OK(w) && (r) != (w) && (OLD(g.fds.open) & (BIT(r) | BIT(w))) == 0 && \
+   g.fds.open == (OLD(g.fds.open) | BIT(r) | BIT(w)) && g.fds.lib == (OLD(g.fds.lib) | BIT(r) | BIT(w)))
 
 CONTRACT(pipe_init)
 int pipe_init(int *read, int *write)
@@ -128,23 +128,23 @@ int pipe_init(int *read, int *write)
   ASSIGNS(*read, *write, G_FD, G_ERR)
   ENS("C14/pipe_init.error_ghost_sane", G_ERR_SANE)
   ENS("C05/pipe_init.success_two_fresh_library_descriptors", IMPLIES(RV == 0, PIPE_PAIR_FRESH(*read, *write)))
-  ENS("C11/pipe_init.both_ends_close_on_exec", IMPLIES(RV == 0, (g.cloexec & (MASK_OF(*read) | MASK_OF(*write))) == (MASK_OF(*read) | MASK_OF(*write))))
-  ENS("C17/pipe_init.both_ends_blocking", IMPLIES(RV == 0, (g.nonblock & (MASK_OF(*read) | MASK_OF(*write))) == 0))
-  ENS("C10/pipe_init.ends_of_one_pipe", IMPLIES(RV == 0, g.obj[*read] >= OBJ_PIPE_BASE && (g.obj[*read] & 1) == 0 && g.obj[*write] == g.obj[*read] + 1 && (g.rd & BIT(*read)) != 0 && (g.wr & BIT(*write)) != 0))
+  ENS("C11/pipe_init.both_ends_close_on_exec", IMPLIES(RV == 0, (g.fds.cloexec & (MASK_OF(*read) | MASK_OF(*write))) == (MASK_OF(*read) | MASK_OF(*write))))
+  ENS("C17/pipe_init.both_ends_blocking", IMPLIES(RV == 0, (g.fds.nonblock & (MASK_OF(*read) | MASK_OF(*write))) == 0))
+  ENS("C10/pipe_init.ends_of_one_pipe", IMPLIES(RV == 0, g.fds.obj[*read] >= OBJ_PIPE_BASE && (g.fds.obj[*read] & 1) == 0 && g.fds.obj[*write] == g.fds.obj[*read] + 1 && (g.fds.rd & BIT(*read)) != 0 && (g.fds.wr & BIT(*write)) != 0))
   ENS("C05/pipe_init.failure_leaves_no_descriptor", IMPLIES(RV != 0, FD_LEDGER_UNCHANGED && *read == OLD(*read) && *write == OLD(*write)))
   ENS("C05/pipe_init.other_descriptors_untouched", FD_FRAME_EXCEPT(RV == 0 ? (MASK_OF(*read) | MASK_OF(*write)) : 0u))
-  ENS("C04/pipe_init.zero_or_negative_errno", RV <= 0 && IMPLIES(RV < 0, g.faults > OLD(g.faults)) && IMPLIES(RV == 0, g.faults == OLD(g.faults)))
-  ENS("C04/pipe_init.first_failure_reported", IMPLIES(RV < 0 && OLD(g.faults) == 0, RV == -g.first_errno))
+  ENS("C04/pipe_init.zero_or_negative_errno", RV <= 0 && IMPLIES(RV < 0, g.e.faults > OLD(g.e.faults)) && IMPLIES(RV == 0, g.e.faults == OLD(g.e.faults)))
+  ENS("C04/pipe_init.first_failure_reported", IMPLIES(RV < 0 && OLD(g.e.faults) == 0, RV == -g.e.first_errno))
   ;
 
 CONTRACT(pipe_nonblocking)
 int pipe_nonblocking(int pipe, bool enable)
-  ASSIGNS(g.nonblock, G_ERR)
+  ASSIGNS(g.fds.nonblock, G_ERR)
   ENS("C14/pipe_nonblocking.error_ghost_sane", G_ERR_SANE)
-  ENS("C17/pipe_nonblocking.sets_flag", IMPLIES(RV == 0, IS_OPEN(pipe) && ((g.nonblock & MASK_OF(pipe)) != 0) == enable))
-  ENS("C17/pipe_nonblocking.only_that_flag", g.open == OLD(g.open) && g.lib == OLD(g.lib) && g.cloexec == OLD(g.cloexec) && (g.nonblock & ~MASK_OF(pipe)) == (OLD(g.nonblock) & ~MASK_OF(pipe)))
-  ENS("C04/pipe_nonblocking.zero_or_negative_errno", RV <= 0 && IMPLIES(RV < 0, RV == -g.err))
-  ENS("C04/pipe_nonblocking.first_failure_reported", IMPLIES(RV < 0 && OLD(g.faults) == 0 && g.faults > 0, RV == -g.first_errno))
+  ENS("C17/pipe_nonblocking.sets_flag", IMPLIES(RV == 0, IS_OPEN(pipe) && ((g.fds.nonblock & MASK_OF(pipe)) != 0) == enable))
+  ENS("C17/pipe_nonblocking.only_that_flag", g.fds.open == OLD(g.fds.open) && g.fds.lib == OLD(g.fds.lib) && g.fds.cloexec == OLD(g.fds.cloexec) && (g.fds.nonblock & ~MASK_OF(pipe)) == (OLD(g.fds.nonblock) & ~MASK_OF(pipe)))
+  ENS("C04/pipe_nonblocking.zero_or_negative_errno", RV <= 0 && IMPLIES(RV < 0, RV == -g.e.err))
+  ENS("C04/pipe_nonblocking.first_failure_reported", IMPLIES(RV < 0 && OLD(g.e.faults) == 0 && g.e.faults > 0, RV == -g.e.first_errno))
   ENS("C17/pipe_nonblocking.does_not_block", g.may_block == OLD(g.may_block))
   ;
 
@@ -157,13 +157,13 @@ int pipe_read(int pipe, uint8_t *buffer, size_t size)
   REQ_(buffer != NULL)
   ASSIGNS(G_ERR, G_RD, __CPROVER_object_whole(buffer))
   ENS("C14/pipe_read.error_ghost_sane", G_ERR_SANE)
-  ENS("C02/pipe_read.exactly_one_read_as_asked", g.rd_calls == OLD(g.rd_calls) + 1 && g.rd_fd == pipe && g.rd_buf == (const void *) buffer && g.rd_n == size && g.wr_calls == OLD(g.wr_calls))
-  ENS("C02/pipe_read.count_is_kernels", IMPLIES(g.rd_ret > 0, RV == g.rd_ret))
-  ENS("C02/pipe_read.eof_is_epipe", IMPLIES(g.rd_ret == 0, RV == -EPIPE))
-  ENS("C02/pipe_read.error_is_errno", IMPLIES(g.rd_ret < 0, RV == -g.rd_errno && RV < 0))
-  ENS("C17/pipe_read.ewouldblock", IMPLIES(g.rd_ret < 0 && g.rd_errno == EAGAIN, RV == REPROC_EWOULDBLOCK))
-  ENS("C17/pipe_read.nonblocking_never_sleeps", IMPLIES((OLD(g.nonblock) & MASK_OF(pipe)) != 0, g.may_block == OLD(g.may_block)))
-  ENS("C05/pipe_read.ledger_unchanged", FD_LEDGER_UNCHANGED && g.nonblock == OLD(g.nonblock) && g.cloexec == OLD(g.cloexec))
+  ENS("C02/pipe_read.exactly_one_read_as_asked", g.rl.rd_calls == OLD(g.rl.rd_calls) + 1 && g.rl.rd_fd == pipe && g.rl.rd_buf == (const void *) buffer && g.rl.rd_n == size && g.wl.wr_calls == OLD(g.wl.wr_calls))
+  ENS("C02/pipe_read.count_is_kernels", IMPLIES(g.rl.rd_ret > 0, RV == g.rl.rd_ret))
+  ENS("C02/pipe_read.eof_is_epipe", IMPLIES(g.rl.rd_ret == 0, RV == -EPIPE))
+  ENS("C02/pipe_read.error_is_errno", IMPLIES(g.rl.rd_ret < 0, RV == -g.rl.rd_errno && RV < 0))
+  ENS("C17/pipe_read.ewouldblock", IMPLIES(g.rl.rd_ret < 0 && g.rl.rd_errno == EAGAIN, RV == REPROC_EWOULDBLOCK))
+  ENS("C17/pipe_read.nonblocking_never_sleeps", IMPLIES((OLD(g.fds.nonblock) & MASK_OF(pipe)) != 0, g.may_block == OLD(g.may_block)))
+  ENS("C05/pipe_read.ledger_unchanged", FD_LEDGER_UNCHANGED && g.fds.nonblock == OLD(g.fds.nonblock) && g.fds.cloexec == OLD(g.fds.cloexec))
   ;
 
 CONTRACT(pipe_write)
@@ -172,22 +172,22 @@ int pipe_write(int pipe, const uint8_t *buffer, size_t size)
   REQ_(buffer != NULL)
   ASSIGNS(G_ERR, G_WR)
   ENS("C14/pipe_write.error_ghost_sane", G_ERR_SANE)
-  ENS("C02/pipe_write.exactly_one_write_as_asked", g.wr_calls == OLD(g.wr_calls) + 1 && g.wr_fd == pipe && g.wr_buf == (const void *) buffer && g.wr_n == size && g.rd_calls == OLD(g.rd_calls))
-  ENS("C02/pipe_write.count_is_kernels", IMPLIES(g.wr_ret >= 0, RV == g.wr_ret))
-  ENS("C02/pipe_write.error_is_errno", IMPLIES(g.wr_ret < 0, RV == -g.wr_errno && RV < 0))
-  ENS("C17/pipe_write.ewouldblock", IMPLIES(g.wr_ret < 0 && g.wr_errno == EAGAIN, RV == REPROC_EWOULDBLOCK))
-  ENS("C17/pipe_write.nonblocking_never_sleeps", IMPLIES((OLD(g.nonblock) & MASK_OF(pipe)) != 0, g.may_block == OLD(g.may_block)))
-  ENS("C05/pipe_write.ledger_unchanged", FD_LEDGER_UNCHANGED && g.nonblock == OLD(g.nonblock) && g.cloexec == OLD(g.cloexec))
+  ENS("C02/pipe_write.exactly_one_write_as_asked", g.wl.wr_calls == OLD(g.wl.wr_calls) + 1 && g.wl.wr_fd == pipe && g.wl.wr_buf == (const void *) buffer && g.wl.wr_n == size && g.rl.rd_calls == OLD(g.rl.rd_calls))
+  ENS("C02/pipe_write.count_is_kernels", IMPLIES(g.wl.wr_ret >= 0, RV == g.wl.wr_ret))
+  ENS("C02/pipe_write.error_is_errno", IMPLIES(g.wl.wr_ret < 0, RV == -g.wl.wr_errno && RV < 0))
+  ENS("C17/pipe_write.ewouldblock", IMPLIES(g.wl.wr_ret < 0 && g.wl.wr_errno == EAGAIN, RV == REPROC_EWOULDBLOCK))
+  ENS("C17/pipe_write.nonblocking_never_sleeps", IMPLIES((OLD(g.fds.nonblock) & MASK_OF(pipe)) != 0, g.may_block == OLD(g.may_block)))
+  ENS("C05/pipe_write.ledger_unchanged", FD_LEDGER_UNCHANGED && g.fds.nonblock == OLD(g.fds.nonblock) && g.fds.cloexec == OLD(g.fds.cloexec))
   ;
 
 /* -------------------------- redirect.c / redirect.posix.c ----------------- */
 
-#define FD_NEW(fd) (FD_OK(fd) && (OLD(g.open) & BIT(fd)) == 0 && (g.open & BIT(fd)) != 0 && (g.lib & BIT(fd)) != 0)
-#define ONLY_NEW1(a) (g.open == (OLD(g.open) | MASK_OF(a)) && g.lib == (OLD(g.lib) | MASK_OF(a)))
-#define ONLY_NEW2(a, b) (g.open == (OLD(g.open) | MASK_OF(a) | MASK_OF(b)) && g.lib == (OLD(g.lib) | MASK_OF(a) | MASK_OF(b)))
+#define FD_NEW(fd) (FD_OK(fd) && (OLD(g.fds.open) & BIT(fd)) == 0 && (g.fds.open & BIT(fd)) != 0 && (g.fds.lib & BIT(fd)) != 0)
+#define ONLY_NEW1(a) (g.fds.open == (OLD(g.fds.open) | MASK_OF(a)) && g.fds.lib == (OLD(g.fds.lib) | MASK_OF(a)))
+#define ONLY_NEW2(a, b) (g.fds.open == (OLD(g.fds.open) | MASK_OF(a) | MASK_OF(b)) && g.fds.lib == (OLD(g.fds.lib) | MASK_OF(a) | MASK_OF(b)))
 #define STREAM_OK(s) ((s) == REPROC_STREAM_IN || (s) == REPROC_STREAM_OUT || (s) == REPROC_STREAM_ERR)
 /* direction the child needs: stdin is read, stdout/stderr are written */
-#define CHILD_DIR_OK(s, fd) ((s) == REPROC_STREAM_IN ? (g.rd & MASK_OF(fd)) != 0 : (g.wr & MASK_OF(fd)) != 0)
+#define CHILD_DIR_OK(s, fd) ((s) == REPROC_STREAM_IN ? (g.fds.rd & MASK_OF(fd)) != 0 : (g.fds.wr & MASK_OF(fd)) != 0)
 #define RTYPE (RD_T(redirect))
 #define PARENT_FALLS_BACK (gc.cfg_std_fileno[stream] < 0)
 #define OPENS_FILE (RTYPE == RT_DISCARD || RTYPE == RT_PATH || (RTYPE == RT_PARENT && PARENT_FALLS_BACK))
@@ -199,22 +199,22 @@ int redirect_init(pipe_type *parent, handle_type *child, REPROC_STREAM stream, r
   REQ("C10/redirect_init.operand_present", IMPLIES(RTYPE == RT_PATH, redirect.path != NULL) && IMPLIES(RTYPE == RT_FILE, redirect.file != NULL))
   ASSIGNS(*parent, *child, G_FD, G_ERR)
   ENS("C14/redirect_init.error_ghost_sane", G_ERR_SANE)
-  ENS("C10/redirect_init.pipe_parent_holds_other_end", IMPLIES(RV == 0 && RTYPE == RT_PIPE, FD_NEW(*parent) && FD_NEW(*child) && *parent != *child && ONLY_NEW2(*parent, *child) && g.obj[*child] >= OBJ_PIPE_BASE && (stream == REPROC_STREAM_IN ? ((g.obj[*child] & 1) == 0 && g.obj[*parent] == g.obj[*child] + 1) : ((g.obj[*parent] & 1) == 0 && g.obj[*child] == g.obj[*parent] + 1)) && CHILD_DIR_OK(stream, *child)))
-  ENS("C17/redirect_init.pipe_parent_end_mode_child_end_blocking", IMPLIES(RV == 0 && RTYPE == RT_PIPE, ((g.nonblock & MASK_OF(*parent)) != 0) == nonblocking && (g.nonblock & MASK_OF(*child)) == 0))
-  ENS("C11/redirect_init.created_descriptors_close_on_exec", IMPLIES(RV == 0 && (RTYPE == RT_PIPE || OPENS_FILE), (g.cloexec & MASK_OF(*child)) != 0 && IMPLIES(RTYPE == RT_PIPE, (g.cloexec & MASK_OF(*parent)) != 0)))
+  ENS("C10/redirect_init.pipe_parent_holds_other_end", IMPLIES(RV == 0 && RTYPE == RT_PIPE, FD_NEW(*parent) && FD_NEW(*child) && *parent != *child && ONLY_NEW2(*parent, *child) && g.fds.obj[*child] >= OBJ_PIPE_BASE && (stream == REPROC_STREAM_IN ? ((g.fds.obj[*child] & 1) == 0 && g.fds.obj[*parent] == g.fds.obj[*child] + 1) : ((g.fds.obj[*parent] & 1) == 0 && g.fds.obj[*child] == g.fds.obj[*parent] + 1)) && CHILD_DIR_OK(stream, *child)))
+  ENS("C17/redirect_init.pipe_parent_end_mode_child_end_blocking", IMPLIES(RV == 0 && RTYPE == RT_PIPE, ((g.fds.nonblock & MASK_OF(*parent)) != 0) == nonblocking && (g.fds.nonblock & MASK_OF(*child)) == 0))
+  ENS("C11/redirect_init.created_descriptors_close_on_exec", IMPLIES(RV == 0 && (RTYPE == RT_PIPE || OPENS_FILE), (g.fds.cloexec & MASK_OF(*child)) != 0 && IMPLIES(RTYPE == RT_PIPE, (g.fds.cloexec & MASK_OF(*parent)) != 0)))
   ENS("C10/redirect_init.parent_stream", IMPLIES(RV == 0 && RTYPE == RT_PARENT && !PARENT_FALLS_BACK, *child == gc.cfg_std_fileno[stream] && FD_LEDGER_UNCHANGED))
-  ENS("C10/redirect_init.parent_stream_missing_means_null_device", IMPLIES(RV == 0 && RTYPE == RT_PARENT && PARENT_FALLS_BACK, FD_NEW(*child) && ONLY_NEW1(*child) && g.obj[*child] == OBJ_DEVNULL && CHILD_DIR_OK(stream, *child)))
-  ENS("C10/redirect_init.discard_is_null_device", IMPLIES(RV == 0 && RTYPE == RT_DISCARD, FD_NEW(*child) && ONLY_NEW1(*child) && g.obj[*child] == OBJ_DEVNULL && CHILD_DIR_OK(stream, *child)))
-  ENS("C10/redirect_init.path_opened_in_right_direction", IMPLIES(RV == 0 && RTYPE == RT_PATH, FD_NEW(*child) && ONLY_NEW1(*child) && CHILD_DIR_OK(stream, *child) && IMPLIES(redirect.path == gc.cfg_path[0], g.obj[*child] == OBJ_PATH_BASE)))
+  ENS("C10/redirect_init.parent_stream_missing_means_null_device", IMPLIES(RV == 0 && RTYPE == RT_PARENT && PARENT_FALLS_BACK, FD_NEW(*child) && ONLY_NEW1(*child) && g.fds.obj[*child] == OBJ_DEVNULL && CHILD_DIR_OK(stream, *child)))
+  ENS("C10/redirect_init.discard_is_null_device", IMPLIES(RV == 0 && RTYPE == RT_DISCARD, FD_NEW(*child) && ONLY_NEW1(*child) && g.fds.obj[*child] == OBJ_DEVNULL && CHILD_DIR_OK(stream, *child)))
+  ENS("C10/redirect_init.path_opened_in_right_direction", IMPLIES(RV == 0 && RTYPE == RT_PATH, FD_NEW(*child) && ONLY_NEW1(*child) && CHILD_DIR_OK(stream, *child) && IMPLIES(redirect.path == gc.cfg_path[0], g.fds.obj[*child] == OBJ_PATH_BASE)))
   ENS("C10/redirect_init.handle_is_users", IMPLIES(RV == 0 && RTYPE == RT_HANDLE, *child == redirect.handle && FD_LEDGER_UNCHANGED))
   ENS("C10/redirect_init.file_is_users", IMPLIES(RV == 0 && RTYPE == RT_FILE, gc.cfg_file_fd >= 0 && *child == gc.cfg_file_fd && FD_LEDGER_UNCHANGED))
   ENS("C10/redirect_init.stdout_shares_childs_stdout", IMPLIES(RV == 0 && RTYPE == RT_STDOUT, *child == out && FD_LEDGER_UNCHANGED))
   ENS("C10/redirect_init.parent_end_only_for_pipes", IMPLIES(RV == 0 && RTYPE != RT_PIPE, *parent == -1))
   ENS("C05/redirect_init.failure_leaves_no_descriptor", IMPLIES(RV != 0, FD_LEDGER_UNCHANGED && *parent == OLD(*parent) && *child == OLD(*child)))
   ENS("C05/redirect_init.other_descriptors_untouched", FD_FRAME_EXCEPT(RV == 0 ? ((RTYPE == RT_PIPE ? MASK_OF(*parent) : 0u) | ((RTYPE == RT_PIPE || OPENS_FILE) ? MASK_OF(*child) : 0u)) : 0u))
-  ENS("C04/redirect_init.success_has_no_failed_call", IMPLIES(RV == 0, g.faults == OLD(g.faults)))
-  ENS("C04/redirect_init.zero_or_negative_error", RV <= 0 && IMPLIES(RV < 0 && OLD(g.faults) == 0 && g.faults > 0, RV == -g.first_errno) && IMPLIES(RV < 0 && g.faults == OLD(g.faults), RV == -EINVAL && (RTYPE == RT_DEFAULT || RTYPE > 7u)))
-  ENS("C13/redirect_init.unknown_type_is_einval", IMPLIES(RTYPE == RT_DEFAULT || RTYPE > 7u, RV == -EINVAL && g.os_calls == OLD(g.os_calls)))
+  ENS("C04/redirect_init.success_has_no_failed_call", IMPLIES(RV == 0, g.e.faults == OLD(g.e.faults)))
+  ENS("C04/redirect_init.zero_or_negative_error", RV <= 0 && IMPLIES(RV < 0 && OLD(g.e.faults) == 0 && g.e.faults > 0, RV == -g.e.first_errno) && IMPLIES(RV < 0 && g.e.faults == OLD(g.e.faults), RV == -EINVAL && (RTYPE == RT_DEFAULT || RTYPE > 7u)))
+  ENS("C13/redirect_init.unknown_type_is_einval", IMPLIES(RTYPE == RT_DEFAULT || RTYPE > 7u, RV == -EINVAL && g.e.os_calls == OLD(g.e.os_calls)))
   ;
 #undef RTYPE
 
@@ -226,9 +226,9 @@ handle_type redirect_destroy(handle_type child, REPROC_REDIRECT type)
   ASSIGNS(G_FD, G_ERR)
   ENS("C14/redirect_destroy.error_ghost_sane", G_ERR_SANE)
   ENS("C05/redirect_destroy.returns_invalid", RV == -1)
-  ENS("C05/redirect_destroy.invalid_is_noop", IMPLIES(child == -1, g.os_calls == OLD(g.os_calls) && g.faults == OLD(g.faults) && g.err == OLD(g.err) && FD_LEDGER_UNCHANGED))
-  ENS("C05/redirect_destroy.closes_what_the_library_opened", IMPLIES(DESTROY_CLOSES(type), g.open == (OLD(g.open) & ~MASK_OF(child)) && g.lib == (OLD(g.lib) & ~MASK_OF(child))))
-  ENS("C05/redirect_destroy.never_closes_user_or_parent_streams", IMPLIES(!DESTROY_CLOSES(type), FD_LEDGER_UNCHANGED && g.os_calls == OLD(g.os_calls)))
+  ENS("C05/redirect_destroy.invalid_is_noop", IMPLIES(child == -1, g.e.os_calls == OLD(g.e.os_calls) && g.e.faults == OLD(g.e.faults) && g.e.err == OLD(g.e.err) && FD_LEDGER_UNCHANGED))
+  ENS("C05/redirect_destroy.closes_what_the_library_opened", IMPLIES(DESTROY_CLOSES(type), g.fds.open == (OLD(g.fds.open) & ~MASK_OF(child)) && g.fds.lib == (OLD(g.fds.lib) & ~MASK_OF(child))))
+  ENS("C05/redirect_destroy.never_closes_user_or_parent_streams", IMPLIES(!DESTROY_CLOSES(type), FD_LEDGER_UNCHANGED && g.e.os_calls == OLD(g.e.os_calls)))
   ENS("C05/redirect_destroy.others_keep_flags", FD_FRAME_EXCEPT(DESTROY_CLOSES(type) ? MASK_OF(child) : 0u))
   ;
 
@@ -242,7 +242,7 @@ int process_wait(pid_t process)
   ENS("C01/process_wait.one_blocking_waitpid", g.wait_calls == OLD(g.wait_calls) + 1)
   ENS("C01/process_wait.status_means_reaped", IMPLIES(RV >= 0, g.child_reaped && !g.child_live && g.reaps == OLD(g.reaps) + 1))
   ENS("C01/process_wait.status_is_exact", IMPLIES(RV >= 0, RV == WST_DECODE(g.child_wstatus)))
-  ENS("C01/process_wait.error_means_not_reaped", IMPLIES(RV < 0, !g.child_reaped && g.child_live && g.reaps == OLD(g.reaps) && RV == -g.err))
+  ENS("C01/process_wait.error_means_not_reaped", IMPLIES(RV < 0, !g.child_reaped && g.child_live && g.reaps == OLD(g.reaps) && RV == -g.e.err))
   ENS("C06/process_wait.no_signal", g.nsig == OLD(g.nsig) && g.kill_calls == OLD(g.kill_calls))
   ENS("C05/process_wait.ledger_unchanged", FD_LEDGER_UNCHANGED && g.child_pid == OLD(g.child_pid) && g.child_wstatus == OLD(g.child_wstatus))
   ;
@@ -254,7 +254,7 @@ int process_terminate(pid_t process)
   ENS("C14/process_terminate.error_ghost_sane", G_ERR_SANE)
   ENS("C07/process_terminate.one_kill", g.kill_calls == OLD(g.kill_calls) + 1 && g.wait_calls == OLD(g.wait_calls))
   ENS("C07/process_terminate.sends_sigterm_once", IMPLIES(RV == 0, g.nsig == OLD(g.nsig) + 1 && IMPLIES(OLD(g.nsig) < 4, g.sig_log[OLD(g.nsig)] == SIGTERM)))
-  ENS("C07/process_terminate.failure_sends_nothing", IMPLIES(RV != 0, RV == -g.err && RV < 0 && g.nsig == OLD(g.nsig)))
+  ENS("C07/process_terminate.failure_sends_nothing", IMPLIES(RV != 0, RV == -g.e.err && RV < 0 && g.nsig == OLD(g.nsig)))
   ENS("C05/process_terminate.ledger_unchanged", FD_LEDGER_UNCHANGED && g.child_pid == OLD(g.child_pid) && g.child_reaped == OLD(g.child_reaped) && g.child_live == OLD(g.child_live) && g.reaps == OLD(g.reaps))
   ;
 
@@ -265,7 +265,7 @@ int process_kill(pid_t process)
   ENS("C14/process_kill.error_ghost_sane", G_ERR_SANE)
   ENS("C07/process_kill.one_kill", g.kill_calls == OLD(g.kill_calls) + 1 && g.wait_calls == OLD(g.wait_calls))
   ENS("C07/process_kill.sends_sigkill_once", IMPLIES(RV == 0, g.nsig == OLD(g.nsig) + 1 && IMPLIES(OLD(g.nsig) < 4, g.sig_log[OLD(g.nsig)] == SIGKILL)))
-  ENS("C07/process_kill.failure_sends_nothing", IMPLIES(RV != 0, RV == -g.err && RV < 0 && g.nsig == OLD(g.nsig)))
+  ENS("C07/process_kill.failure_sends_nothing", IMPLIES(RV != 0, RV == -g.e.err && RV < 0 && g.nsig == OLD(g.nsig)))
   ENS("C05/process_kill.ledger_unchanged", FD_LEDGER_UNCHANGED && g.child_pid == OLD(g.child_pid) && g.child_reaped == OLD(g.child_reaped) && g.child_live == OLD(g.child_live) && g.reaps == OLD(g.reaps))
   ;
 
@@ -280,7 +280,7 @@ int process_kill(pid_t process)
    side: everything the started program is promised is asserted by the execvp
    contract of the OS layer (labels C03/exec.*, C10/exec.*, C11/exec.*,
    C12/exec.*); failures are reported through the error pipe (C04/child.*). */
-#define GHOST_SANE (g.err >= 0 && g.err < 134 && g.first_errno >= 0 && g.first_errno < 134 && g.last_fault >= 0 && g.last_fault < 134 && g.faults >= 0 && g.faults <= 1000 && g.child_fate_errno >= 0 && g.child_fate_errno < 134 && g.nsig >= 0 && g.kill_calls >= 0)
+#define GHOST_SANE (g.e.err >= 0 && g.e.err < 134 && g.e.first_errno >= 0 && g.e.first_errno < 134 && g.e.last_fault >= 0 && g.e.last_fault < 134 && g.e.faults >= 0 && g.e.faults <= 1000 && g.child_fate_errno >= 0 && g.child_fate_errno < 134 && g.nsig >= 0 && g.kill_calls >= 0)
 
 CONTRACT(process_start)
 int process_start(pid_t *process, const char *const *argv, struct process_options options)
@@ -291,17 +291,17 @@ int process_start(pid_t *process, const char *const *argv, struct process_option
   ASSIGNS(*process, g, environ)
   ENS("C14/process_start.error_ghost_sane", G_ERR_SANE && g.child_fate_errno >= 0 && g.child_fate_errno < 134 && g.now == OLD(g.now) && g.in_fd == OLD(g.in_fd) && g.stream_pos == OLD(g.stream_pos))
   ENS("C04/process_start.side_of_fork", IMPLIES(g.in_child, gc.cfg_child_side) && IMPLIES(RV > 0, !gc.cfg_child_side))
-  ENS("C11/process_start.fork_mode_child_descriptors", IMPLIES(g.in_child, (g.open & ~7u & ~PS_HANDLES_MASK) == 0 && (g.open & PS_HANDLES_MASK & ~7u) == (OLD(g.open) & PS_HANDLES_MASK & ~7u)))
-  ENS("C04/process_start.success_has_no_failed_call", IMPLIES(RV >= 0, g.faults == OLD(g.faults)))
+  ENS("C11/process_start.fork_mode_child_descriptors", IMPLIES(g.in_child, (g.fds.open & ~7u & ~PS_HANDLES_MASK) == 0 && (g.fds.open & PS_HANDLES_MASK & ~7u) == (OLD(g.fds.open) & PS_HANDLES_MASK & ~7u)))
+  ENS("C04/process_start.success_has_no_failed_call", IMPLIES(RV >= 0, g.e.faults == OLD(g.e.faults)))
   ENS("C04/process_start.parent_gets_one_or_error", IMPLIES(PS_PARENT, RV == 1 || RV < 0))
   ENS("C04+C06/process_start.success_is_live_child_that_executed", IMPLIES(PS_PARENT && RV == 1, *process == g.child_pid && *process > 0 && g.child_live && !g.child_reaped && g.reaps == OLD(g.reaps) && g.child_fate == FATE_EXECED))
   ENS("C04+C05+C06/process_start.failure_leaves_no_child_and_no_pid", IMPLIES(PS_PARENT && RV < 0, *process == -1 && !g.child_live && (g.child_pid == 0 || g.child_reaped)))
-  ENS("C04/process_start.failure_is_real_cause", IMPLIES(PS_PARENT && RV < 0 && OLD(g.faults) == 0, (g.faults > 0 && RV == -g.first_errno) || ((g.child_fate == FATE_FAILED_EARLY || g.child_fate == FATE_FAILED_LATE) && RV == -g.child_fate_errno)))
+  ENS("C04/process_start.failure_is_real_cause", IMPLIES(PS_PARENT && RV < 0 && OLD(g.e.faults) == 0, (g.e.faults > 0 && RV == -g.e.first_errno) || ((g.child_fate == FATE_FAILED_EARLY || g.child_fate == FATE_FAILED_LATE) && RV == -g.child_fate_errno)))
   ENS("C12/process_start.caller_state_untouched", IMPLIES(PS_PARENT, g.sigmask == OLD(g.sigmask) && g.disp_default == OLD(g.disp_default) && g.cwd_id == OLD(g.cwd_id) && environ == OLD(environ)))
-  ENS("C05/process_start.parent_descriptors_as_before", IMPLIES(PS_PARENT, g.open == OLD(g.open) && g.lib == OLD(g.lib) && g.cloexec == OLD(g.cloexec) && g.nonblock == OLD(g.nonblock)))
+  ENS("C05/process_start.parent_descriptors_as_before", IMPLIES(PS_PARENT, g.fds.open == OLD(g.fds.open) && g.fds.lib == OLD(g.fds.lib) && g.fds.cloexec == OLD(g.fds.cloexec) && g.fds.nonblock == OLD(g.fds.nonblock)))
   ENS("C06/process_start.sends_no_signal", g.nsig == OLD(g.nsig) && g.kill_calls == OLD(g.kill_calls))
   ENS("C04/process_start.child_returns_only_in_fork_mode", IMPLIES(g.in_child, RV == 0 && argv == NULL && !g.execd && g.child_reports == 0))
-  ENS("C10/process_start.fork_mode_child_streams", IMPLIES(g.in_child, IS_OPEN(0) && IS_OPEN(1) && IS_OPEN(2) && g.obj[0] == gc.want_obj[0] && g.obj[1] == gc.want_obj[1] && g.obj[2] == gc.want_obj[2]))
+  ENS("C10/process_start.fork_mode_child_streams", IMPLIES(g.in_child, IS_OPEN(0) && IS_OPEN(1) && IS_OPEN(2) && g.fds.obj[0] == gc.want_obj[0] && g.fds.obj[1] == gc.want_obj[1] && g.fds.obj[2] == gc.want_obj[2]))
   ENS("C12/process_start.fork_mode_child_clean_signal_state", IMPLIES(g.in_child, g.sigmask == 0 && DISP_ALL_DEFAULT_PUB))
   ENS("C03/process_start.fork_mode_child_cwd", IMPLIES(g.in_child, g.cwd_id == gc.want_cwd_id))
   ;
